@@ -17,7 +17,8 @@ class C10(Prop):
             "connection on a non-default port or -m given; distinct = spec digests")
     reach = ["m_absent", "m_bare", "m_pairs", "m_trailing_comma", "p_list", "server_on_unlisted_port", "server_on_p_port",
              "server_on_44330", "quic_conn", "mapped_port_hit", "mapped_default_8080", "first_segment_from_server",
-             "after_run_with_other_port_map", "cli_subprocess_optimised"]
+             "after_run_with_other_port_map", "cli_subprocess_optimised", "quic_client_address_change",
+             "same_client_socket_other_server_port"]
 
     def plan(self, tier):
         p = super().plan(tier)
@@ -46,8 +47,27 @@ class C10(Prop):
             avoid = tuple(plist) + (unl,)
             if quic_ok and R.chance(35):
                 from .. import quicpeer
-                c = quicpeer.gen_quic_conn(R.fork("q", j), j, {"small": True}, used, server_port=port, avoid_ports=avoid)
+                c = quicpeer.gen_quic_conn(R.fork("q", j), j, {"small": True, "migrate_pct": 25}, used, server_port=port,
+                                           avoid_ports=avoid)
             else:
+                kw = {}
+                prev = [x for x in conns if x["proto"] == "tls" and x["s"]["port"] != port]
+                SC = R.fork("samecp", j)
+                if prev and SC.chance(25):
+                    # the same client socket address (ip and port) towards another port of the same server
+                    o = SC.choice(prev)
+                    kw = {"client_ip": o["c"]["ip"], "client_port": o["c"]["port"], "server_ip": o["s"]["ip"]}
+                    c2cfg = dict(cfg, v6_pct=100 if o["v6"] else 0)
+                else:
+                    c2cfg = cfg
+                try:
+                    c = gen.gen_tls_conn(R.fork("conn", j), j, c2cfg, used, server_port=port, avoid_ports=avoid, **kw)
+                    if kw:
+                        c["c"]["mac"], c["s"]["mac"] = o["c"]["mac"], o["s"]["mac"]
+                        c["same_client_socket"] = True
+                except (ValueError, RuntimeError):
+                    c = gen.gen_tls_conn(R.fork("conn-alt", j), j, cfg, used, server_port=port, avoid_ports=avoid)
+            if False:
                 c = gen.gen_tls_conn(R.fork("conn", j), j, cfg, used, server_port=port, avoid_ports=avoid)
                 # make sure something is exported for a selected connection
                 if not any(r["n"] > 0 for r in c["recs"]):
@@ -179,6 +199,10 @@ class C10(Prop):
             cp, sp = c["c"]["port"], c["s"]["port"]
             if c["proto"] == "quic":
                 out.count("reach:quic_conn")
+                if c.get("c_mig"):
+                    out.count("reach:quic_client_address_change")
+            if c.get("same_client_socket"):
+                out.count("reach:same_client_socket_other_server_port")
             if sp == spec.get("unlisted"):
                 out.count("reach:server_on_unlisted_port")
             elif sp == 44330:
@@ -189,8 +213,20 @@ class C10(Prop):
                 out.nontrivial = True
             mine = [k for k in flows if k[0] == proto and ((k[2] == cip and k[3] == cp and k[4] == sip) or
                                                            (k[4] == cip and k[5] == cp and k[2] == sip))]
+            shared = [x for x in spec["conns"] if x["id"] != c["id"] and x["proto"] == c["proto"] and
+                      (x["c"]["ip"], x["c"]["port"], x["s"]["ip"]) == (c["c"]["ip"], c["c"]["port"], c["s"]["ip"])]
+            if shared:
+                # several connections from one client socket to one server host: its flows are told apart by the
+                # (documented) exported server port; a flow with any other port stays unaccounted and is reported
+                w_ = out_port(spec, sp)
+                mine = [k for k in mine if (k[5] if k[2] == cip else k[3]) == w_]
             accounted.update(mine)
             tag = pre + "%s conn %d client port %d server port %d, options %s" % (c["proto"], c["id"], cp, sp, cli)
+            if sp not in selected and c["proto"] == "tls" and shared and any(
+                    x["s"]["port"] in selected and out_port(spec, x["s"]["port"]) == out_port(spec, sp) for x in shared):
+                # its (absent) flow could not be told from the flow of the selected connection on the same client socket
+                out.count("unselected_connection_shares_socket_and_output_port")
+                continue
             if sp not in selected and c["proto"] == "tls":
                 # the port selection rule is stated for TCP/TLS only; QUIC is recognised on any UDP port
                 if mine:
